@@ -43,8 +43,10 @@ for sid in sorted(d for d in os.listdir(ROOT) if os.path.isdir(os.path.join(ROOT
         if m:
             needs = m.group(0).strip()[:600]
             break
+    obsolete = os.path.exists(os.path.join(d, "OBSOLETE.md"))
     meta = {
         "id": sid,
+        "obsolete_on_current_head": obsolete,
         "property": pid,
         "source": "independent sub-agent working in a scratch worktree of /repo with only the text of the property",
         "files_changed": files,
@@ -63,13 +65,17 @@ for sid in sorted(d for d in os.listdir(ROOT) if os.path.isdir(os.path.join(ROOT
         "first_violation_lines": detail[:4],
     }
     json.dump(meta, open(os.path.join(d, "meta.json"), "w"), indent=1)
+    if obsolete:
+        rows.append((sid, "", ", ".join(files), "(obsolete: no longer breaks the property on the current HEAD, see OBSOLETE.md)", ""))
+        continue
     rows.append((sid, pid, ", ".join(files), ", ".join(caught) or "-", (detail[0] if detail else "")[:160]))
 with open(os.path.join(ROOT, "SUMMARY.md"), "w") as f:
     f.write("# Seeded property-breaking changes and the checks that catch them\n\n")
     f.write("| seed | files | caught by | first violation |\n|---|---|---|---|\n")
     for r in rows:
         f.write("| %s | %s | %s | %s |\n" % (r[0], r[2], r[3], r[4].replace("|", "/")))
-    own = sum(1 for r in rows if r[1] in r[3].split(", "))
-    f.write("\n%d seeds; %d caught by the check of the property they were written against; %d caught by some check.\n"
-            % (len(rows), own, sum(1 for r in rows if r[3] != "-")))
+    live = [r for r in rows if r[1]]
+    own = sum(1 for r in live if r[1] in r[3].split(", "))
+    f.write("\n%d changes stored, %d of them still break their property on the current HEAD; of these %d are caught by the check of the property they were written against and %d by some check.\n"
+            % (len(rows), len(live), own, sum(1 for r in live if r[3] != "-")))
 print(len(rows), "seeds")
